@@ -65,6 +65,9 @@ Step ==
      /\ UNCHANGED <<ins, fx, outs, keys, term, torn, clen, chash, slen, shash>>
   \/ /\ Is("chunk") /\ clen' = clen + Ev.v /\ chash' = Ev.i /\ UNCHANGED <<ins, fx, outs, keys, term, torn, slen, shash>>
   \/ /\ Is("src") /\ slen' = Ev.v /\ shash' = Ev.i /\ UNCHANGED <<ins, fx, outs, keys, term, torn, clen, chash>>
+  \* core contract, context: the callback that carried the previous `out` received a context with the marker attached at subscription
+  \* and the marker the source attached to its notifications (the plugin operator passes contexts on like any core operator)
+  \/ /\ Is("octx") /\ Ev.b /\ UNCHANGED <<ins, fx, outs, keys, term, torn, clen, chash, slen, shash>>
   \/ /\ Is("torn") /\ torn' = torn + 1 /\ UNCHANGED <<ins, fx, outs, keys, term, clen, chash, slen, shash>>
   \/ /\ Is("end")
      /\ torn = 1                                                                       \* the source was released, once
